@@ -283,6 +283,21 @@ def np_outer(interp, name, args, kw, st, node):
     return fresh_arr(T("outer", a.term, b.term), sh, a.labels | b.labels)
 
 
+@reg("numpy.add.outer", "numpy.subtract.outer", "numpy.multiply.outer")
+def np_ufunc_outer(interp, name, args, kw, st, node):
+    # ufunc.outer(u, v) is u[:, None] (op) v[None, :]
+    a, b = arrv(args[0]), arrv(args[1])
+    sa, sb = shape(a), shape(b)
+    if sa is None or sb is None or len(sa) != 1 or len(sb) != 1:
+        return fresh_arr(callterm(name, args, kw), None, a.labels | b.labels)
+    none = V("none", const(None))
+    full = V("slice", T("slice", const(None), const(None), const(None)), items=[none, none, none])
+    col = A.subscript(interp, a, interp.mk_tuple([full, none]), st, node)
+    row = A.subscript(interp, b, interp.mk_tuple([none, full]), st, node)
+    op = {"add": "add", "subtract": "sub", "multiply": "mul"}[name.split(".")[1]]
+    return A.binop(interp, op, col, row, st, node)
+
+
 @reg("numpy.linalg.multi_dot")
 def np_multidot(interp, name, args, kw, st, node):
     x = args[0]
@@ -349,6 +364,11 @@ def _reduction(opname, dtype=None, index=False):
                 parts.append(("n", A.dim_term(ext)))
         term = T(opname, *parts)
         is_sq = x.term.op == "pow" and len(x.term.args) == 2 and x.term.args[1] == const(2)
+        if opname == "sum" and at is None and x.term.op == "mul" and len(x.term.args) == 2 and sh is not None and len(sh) == 2 and len(parts) == 1:
+            # sum_ij P_ij Q_ij = trace(P Q^T)
+            pv, qv = interp.vtab.get(x.term.args[0]), interp.vtab.get(x.term.args[1])
+            if pv is not None and qv is not None and shape(pv) == tuple(sh) and shape(qv) == tuple(sh):
+                term = T("trace", T("matmul", pv.term, T("T", qv.term)))
         if opname == "sum" and ((x.term.op == "mul" and len(x.term.args) == 2) or is_sq) and sh is not None and len(sh) == 2 and len(parts) == 2 and axis_of(b.get("axis"), rank) in (0, 1):
             # sum_j P_ij Q_ij = diag(P Q^T)_i   (and along the other axis diag(P^T Q))
             pv, qv = interp.vtab.get(x.term.args[0]), interp.vtab.get(x.term.args[0 if is_sq else 1])
